@@ -104,6 +104,11 @@ func (c11) Gen(seed uint64, idx int, tier string) *Scenario {
 			sc.Fill = r.Range(1, 4096*6)
 		}
 	}
+	if sc.Opts != 0 && sc.Fill > 2000 {
+		// every line of a listing or trace is several gated writes: keep long
+		// generated outputs off the gate so that runs stay within the step bound
+		sc.GateOut = false
+	}
 	// a read error at some step, with or without data
 	if r.Chance(3, 10) {
 		nsteps := len(sc.Reads)
